@@ -18,7 +18,7 @@ theorem DFin.client_base : ∀ a ∈ clientBase, DFin.Kept a := by
   all_goals (try (simp at hg; done))
   all_goals (repeat' split)
   all_goals (intro he hm hF)
-  all_goals (first | (cases hm; done) | (obtain ⟨f1⟩ := h _ he hm hF))
+  all_goals (first | (cases hm; done) | (obtain ⟨f1⟩ := h _ (Here.intro _) hm hF))
   all_goals constructor
   all_goals (try dsimp only)
   all_goals (repeat' split)
@@ -39,7 +39,7 @@ theorem DFin.client_mon (s0 : Nat) : ∀ a ∈ clMon s0, DFin.Kept a := by
   all_goals (try (simp at hg; done))
   all_goals (repeat' split)
   all_goals (intro he hm hF)
-  all_goals (first | (cases hm; done) | (obtain ⟨f1⟩ := h _ he hm hF))
+  all_goals (first | (cases hm; done) | (obtain ⟨f1⟩ := h _ (Here.intro _) hm hF))
   all_goals constructor
   all_goals (try dsimp only)
   all_goals (repeat' split)
@@ -60,7 +60,7 @@ theorem DFin.client_cfg (s0 : Nat) : ∀ a ∈ clCfg s0, DFin.Kept a := by
   all_goals (try (simp at hg; done))
   all_goals (repeat' split)
   all_goals (intro he hm hF)
-  all_goals (first | (cases hm; done) | (obtain ⟨f1⟩ := h _ he hm hF))
+  all_goals (first | (cases hm; done) | (obtain ⟨f1⟩ := h _ (Here.intro _) hm hF))
   all_goals constructor
   all_goals (try dsimp only)
   all_goals (repeat' split)
@@ -81,7 +81,7 @@ theorem DFin.client_err (s0 : Nat) : ∀ a ∈ clErr s0, DFin.Kept a := by
   all_goals (try (simp at hg; done))
   all_goals (repeat' split)
   all_goals (intro he hm hF)
-  all_goals (first | (cases hm; done) | (obtain ⟨f1⟩ := h _ he hm hF))
+  all_goals (first | (cases hm; done) | (obtain ⟨f1⟩ := h _ (Here.intro _) hm hF))
   all_goals constructor
   all_goals (try dsimp only)
   all_goals (repeat' split)
@@ -102,7 +102,7 @@ theorem DFin.client_start (s0 : Nat) : ∀ a ∈ clStart s0, DFin.Kept a := by
   all_goals (try (simp at hg; done))
   all_goals (repeat' split)
   all_goals (intro he hm hF)
-  all_goals (first | (cases hm; done) | (obtain ⟨f1⟩ := h _ he hm hF))
+  all_goals (first | (cases hm; done) | (obtain ⟨f1⟩ := h _ (Here.intro _) hm hF))
   all_goals constructor
   all_goals (try dsimp only)
   all_goals (repeat' split)
@@ -123,7 +123,7 @@ theorem DFin.client_stop (s0 : Nat) : ∀ a ∈ clStop s0, DFin.Kept a := by
   all_goals (try (simp at hg; done))
   all_goals (repeat' split)
   all_goals (intro he hm hF)
-  all_goals (first | (cases hm; done) | (obtain ⟨f1⟩ := h _ he hm hF))
+  all_goals (first | (cases hm; done) | (obtain ⟨f1⟩ := h _ (Here.intro _) hm hF))
   all_goals constructor
   all_goals (try dsimp only)
   all_goals (repeat' split)
@@ -144,7 +144,7 @@ theorem DFin.client_acc (s0 : Nat) : ∀ a ∈ clAcc s0, DFin.Kept a := by
   all_goals (try (simp at hg; done))
   all_goals (repeat' split)
   all_goals (intro he hm hF)
-  all_goals (first | (cases hm; done) | (obtain ⟨f1⟩ := h _ he hm hF))
+  all_goals (first | (cases hm; done) | (obtain ⟨f1⟩ := h _ (Here.intro _) hm hF))
   all_goals constructor
   all_goals (try dsimp only)
   all_goals (repeat' split)
@@ -165,7 +165,7 @@ theorem DFin.client_flush (s0 r0 : Nat) : ∀ a ∈ clientFlush s0 r0, DFin.Kept
   all_goals (try (simp at hg; done))
   all_goals (repeat' split)
   all_goals (intro he hm hF)
-  all_goals (first | (cases hm; done) | (obtain ⟨f1⟩ := h _ he hm hF))
+  all_goals (first | (cases hm; done) | (obtain ⟨f1⟩ := h _ (Here.intro _) hm hF))
   all_goals constructor
   all_goals (try dsimp only)
   all_goals (repeat' split)
@@ -181,18 +181,18 @@ theorem DFin.micro : ∀ rt, MReach rt → ∀ s, DFinP s (getS rt s) rt.client 
   · intro s a ha rt hr hg h
     refine all_setS_cl DFinP rt s _ ?_ h
     intro he hm hF
-    rw [(src_keeps_script s a ha _).2] at he; rw [src_keeps_F s a ha] at hF
-    exact DFin.src s rt.client rt.state a ha _ hg (TInvAll.micro rt hr s) (DId.micro rt hr s he hm hF) (h s he hm hF)
+    rw [src_keeps_F s a ha] at hF
+    exact DFin.src s rt.client rt.state a ha _ hg (TInvAll.micro rt hr s) (DId.micro rt hr s (Here.intro _) hm hF) (h s (Here.intro _) hm hF)
   · intro s a ha rt _ hg h
     refine all_setS_cl DFinP rt s _ ?_ h
     intro he hm hF
-    rw [(flt_keeps_script a ha _).2] at he; rw [flt_keeps_F a ha] at hF
-    exact DFin.flt s rt.client a ha _ hg (h s he hm hF)
+    rw [flt_keeps_F a ha] at hF
+    exact DFin.flt s rt.client a ha _ hg (h s (Here.intro _) hm hF)
   · intro s a ha rt _ hg h
     refine all_setS_cl DFinP rt s _ ?_ h
     intro he hm hF
-    rw [(snk_keeps_script s a ha _).2] at he; rw [snk_keeps_F s a ha] at hF
-    exact DFin.snk s rt.client a ha _ hg (h s he hm hF)
+    rw [snk_keeps_F s a ha] at hF
+    exact DFin.snk s rt.client a ha _ hg (h s (Here.intro _) hm hF)
   · intro a ha rt hr hg h
     exact client_families DFin.Kept DFin.client_base DFin.client_mon DFin.client_cfg DFin.client_start DFin.client_err
       DFin.client_stop DFin.client_acc (fun s r _ => DFin.client_flush s r) a ha rt (TInvAll.micro rt hr) hg h
